@@ -102,13 +102,13 @@ ADDED = {
     "C02": "Also: 2^-60-unit alphabets, mixed scalar/bar streams, periods up to usize::MAX, unvalidated (inverted) bars, very long runs against an incremental double-double recursion, the identity transformations (serde, clone, clone_from, chain) before the last operation, and prices near f64::MAX (KeltnerChannel's typical price overflows on bars: KNOWN-FINDING K5, exit 0). Round 13: one EMA instance fed 2^32+16 inputs with every step checked against the recursion on its own previous output; multipliers 2.618 / 0.1.",
     "C03": "Also: S_huge (1e307), spike, tiny-unit and mixed alphabets, MFI alphabets with equal typical prices and with reset, huge EMA periods, very long runs (incl. CCI/MFI against the recomputed window), the identity transformations before the last operation. Round 12b: multi-deviation families (k <= 2, thorough k <= 3) at period 9 (thorough 17) for FastStoch/SlowStoch/CCI/MFI/ER/ROC.",
     "C04": "Also: long-prefix family to period 256, lifecycle state graph with reset checked in every reachable state (stateright cross-check), periods 2^32+2 and usize::MAX.",
-    "C05": "Also: long continuations with reset histories, clone_from, ambient-state stage (flush-to-zero disturbance, subnormal stream, rebuilt instances), inexact and zero-containing alphabets, Default vs new(reported parameters), lifecycle clone graph, period sweep against digests computed in fresh processes (process-global tables), period 8192 twins and (sampling) under load.",
+    "C05": "Also: long continuations with reset histories, clone_from, ambient-state stage (flush-to-zero disturbance, subnormal stream, rebuilt instances), inexact and zero-containing alphabets, Default vs new(reported parameters), lifecycle clone graph, period sweep against digests computed in fresh processes (process-global tables), period 8192 twins and (sampling) under load. Round 14: the fresh-process period sweep also covers large periods up to 100003; the ambient-state scenarios also with a non-finite first input (after new and after reset).",
     "C06": "Also: continuations containing reset(), long-history family to period 257, period 70000 with checkpoints around 65536 and the full window, lifecycle serde graph, DataItems with fractional/huge volumes. Round 13: for every period up to 1100 / 2000 a round trip after a full window plus one input, 24 more inputs on both copies.",
     "C07": "Also: S_wide, S_huge, ulp-neighbour and subnormal alphabets, huge EMA periods, MFI alphabet with reset, 8 regimes incl. outlier and stair, runs of several thousand steps, the identity transformations before the last operation. Round 12b: multi-deviation families (<= 3 tie-producing deviations at every set of positions, four base streams) at periods 9 and 17 (thorough up to 33), scalar and bar path. Round 13: ER and RSI fed bars (grid alphabet, tick walks, deviation families).",
     "C08": "Also: reset() as a prefix symbol, prefixes fed through the other input path, stretches alternating scalar / one-price bar, prefixes followed by a serde round trip / clone / clone_from, negative levels, levels 1e200/1e-200/1e300 from the start, price sweep 0.01..20.00. Round 13: flat stretches after 2^22+4096 inputs on one instance.",
     "C09": "Also: tiny-unit, negative-price and mixed scalar/bar alphabets, huge periods, the identity transformations before the last operation, and finite values at both ends of the f64 range (SMA/WMA/SD/BB/ATR/KC overflow there: KNOWN-FINDING lines K6-K11, exit 0; MAD, EMA, TR, MIN/MAX hold). Round 12b: deep three-level sequences (depth 10-11 / 12-13) for periods 3..8. Round 13: constant off-grid streams and a tick-grid walk of 2^22+4096 inputs on one instance, every step judged.",
     "C10": "Also: quiet streams, a 30000/200000-bar stream of two-decimal prices with flat stretches, near-extreme DataItems, one-price alphabets with ulp neighbours and negative/zero Keltner multipliers, both input paths mixed on one instance, minimal-trait types compiled and run. Round 13: DataItems obtained by deserialization (any five numbers, opens outside the range) against a plain struct.",
-    "C11": "Also: multipliers 2.71828, 1e-5, 1e305, -0.0, inf; windowed constructors up to 2^25; accessors re-checked on clones, restored copies and clone_from targets after every operation; Default (also reset/cloned/formatted first) vs new on negative inputs.",
+    "C11": "Also: multipliers 2.71828, 1e-5, 1e305, -0.0, inf; windowed constructors up to 2^25; accessors re-checked on clones, restored copies and clone_from targets after every operation; Default (also reset/cloned/formatted first) vs new on negative inputs. Round 14: SlowStochastic x every power of two +-1 in the EMA position, MACD/PPO over 13^3 triples of wrapping magnitudes.",
     "C12": "Also: periods 65536/100000, clone_from, calls on restored (deserialized) copies, Default::default() instances (incl. the empty history), flat runs around a reset for all run lengths up to 2n+2. Round 12b: multi-deviation families (<= 3 deviations) at periods 9 and 17 (thorough 9..33) for every indicator with a period. Round 13: every period 1..=1100 and powers of two +-1 up to 2^16.",
     "C13": "Also: regimes stair (equal typical price, different bar composition), short saw-tooth, tri4, zero-mix; bases down to 3e-7; single-regime runs for periods 2 and 3; bar-path runs of the close-/low-/high-reading indicators; MFI zero volumes. Round 13: 2.1 M / 4.2 M-step runs for every subject at periods 3 and 14.",
     "C14": "Also: streams with reset, a 1e6 spike symbol, prices around 1e300 scaled by 2^21 for indicators without running sums, period 6001, Maximum(x) = -Minimum(-x) on streams with reset (Maximum transformed before each reset). Round 13: bars with tied typical prices and different shapes under exactly representable factors.",
